@@ -67,6 +67,68 @@ def exc_key(e):
     return '%s@%s' % (type(e).__name__, inner or 'outside')
 
 
+def raised_below_code_under_test(e):
+    """True when the exception was raised inside nptdms or in something nptdms called (i.e. after the last frame of the
+    verification code): an escape from the code under test, not a harness bug."""
+    tb = e.__traceback__
+    last_mine = -1
+    last_nptdms = -1
+    i = 0
+    while tb is not None:
+        fn = tb.tb_frame.f_code.co_filename.replace('\\', '/')
+        if fn.startswith(VERIF_DIR):
+            last_mine = i
+        elif '/nptdms/' in fn:
+            last_nptdms = i
+        tb = tb.tb_next
+        i += 1
+    return last_nptdms > last_mine
+
+
+CASE_TIMEOUT_S = int(os.environ.get('VERIF_CASE_TIMEOUT', '120'))
+
+
+class CaseTimeout(BaseException):
+    pass
+
+
+class StopShard(BaseException):
+    pass
+
+
+def _on_alarm(signum, frame):
+    raise CaseTimeout()
+
+
+def run_check(check, case, rec):
+    """check(case, rec) with escapes from the code under test turned into violations instead of harness errors, and a
+    watchdog: a single case (milliseconds to a few seconds of work) that does not finish within CASE_TIMEOUT_S means the code
+    under test does not return."""
+    import signal
+    use_alarm = hasattr(signal, 'SIGALRM') and CASE_TIMEOUT_S > 0
+    if use_alarm:
+        try:
+            old = signal.signal(signal.SIGALRM, _on_alarm)
+            signal.alarm(CASE_TIMEOUT_S)
+        except ValueError:          # not in the main thread
+            use_alarm = False
+    try:
+        check(case, rec)
+    except CaseTimeout:
+        rec.violation('no_result', 'the case did not finish within %d s (the code under test does not return)' % CASE_TIMEOUT_S,
+                      key='timeout')
+        rec.timeouts = getattr(rec, 'timeouts', 0) + 1
+    except Exception as e:      # noqa
+        if raised_below_code_under_test(e):
+            rec.violation('unguarded_call:raised', describe_exc(e), key=exc_key(e))
+        else:
+            raise
+    finally:
+        if use_alarm:
+            signal.alarm(0)
+            signal.signal(signal.SIGALRM, old)
+
+
 def describe_exc(e):
     return '%s: %s' % (type(e).__name__, str(e)[:300])
 
@@ -184,15 +246,22 @@ def _run_shard(args):
                 @_hyp_settings(n)
                 @given(job.fn())
                 def t(case):
+                    if getattr(rec, 'timeouts', 0) >= 1:
+                        raise StopShard()       # a hanging case was found: do not spend the budget on more of them
                     rec.begin(case)
-                    check(case, rec)
+                    run_check(check, case, rec)
                     rec.end()
-                t()
+                try:
+                    t()
+                except StopShard:
+                    pass
         elif job.kind == 'enum':
             rec.distinct_by_construction = True
             for case in job.fn(shard, nshards):
+                if getattr(rec, 'timeouts', 0) >= 1:
+                    break
                 rec.begin(case)
-                check(case, rec)
+                run_check(check, case, rec)
                 rec.end()
         elif job.kind == 'custom':
             job.fn(shard, nshards, derive_seed(seed, prop.ID, job.name, shard), rec)
@@ -288,7 +357,7 @@ def try_shrink(prop, job, check, key, budget_examples, seed, budget_seconds=30):
                 return False        # out of budget: stop making progress, keep the best case found so far
             rec = Recorder(prop.ID)
             rec.begin(case)
-            check(case, rec)
+            run_check(check, case, rec)
             return key in rec.violations
         case = hypothesis.find(job.fn(), pred,
                                settings=settings(max_examples=budget_examples, database=None, deadline=None,
@@ -296,7 +365,7 @@ def try_shrink(prop, job, check, key, budget_examples, seed, budget_seconds=30):
                                random=random.Random(seed))
         rec = Recorder(prop.ID)
         rec.begin(case)
-        check(case, rec)
+        run_check(check, case, rec)
         return rec.violations.get(key)
     except Exception:       # noqa  (NoSuchExample, or anything else: fall back to the recorded case)
         return None
@@ -329,7 +398,7 @@ def _run_replay(prop, path):
         for j in prop.jobs('quick'):
             if j.name == jobname and j.check:
                 check = j.check
-    check(case, rec)
+    run_check(check, case, rec)
     rec.end()
     if rec.violations:
         for k, v in rec.violations.items():
@@ -372,7 +441,7 @@ def _run_jobs(prop, prop_name, tier, seed, t0):
         for j in jobs:
             if j.name == doc.get('job') and j.check:
                 check = j.check
-        check(case, rec)
+        run_check(check, case, rec)
         rec.end()
         replay_results.append({'file': rp, 'violations': sorted(rec.violations)})
         for k, v in rec.violations.items():
